@@ -1,0 +1,31 @@
+//go:build verif
+
+package unionfind
+
+import (
+	"fmt"
+	"strings"
+)
+
+// VerifDump renders the internal state of a union-find structure created by this package
+// (read-only; used by the verification harness in /verif to compare the state with its model).
+func VerifDump(u UnionFind) string {
+	ints := func(a []int) string {
+		s := make([]string, len(a))
+		for i, v := range a {
+			s[i] = fmt.Sprint(v)
+		}
+		return "[" + strings.Join(s, " ") + "]"
+	}
+
+	switch t := u.(type) {
+	case *quickFind:
+		return fmt.Sprintf("count=%d id=%s", t.count, ints(t.id))
+	case *quickUnion:
+		return fmt.Sprintf("count=%d root=%s", t.count, ints(t.root))
+	case *weightedQuickUnion:
+		return fmt.Sprintf("count=%d root=%s size=%s", t.count, ints(t.root), ints(t.size))
+	default:
+		return "unknown"
+	}
+}
